@@ -18,6 +18,7 @@ func init() {
 			{ID: "C01.R5", Title: "in each interpreter the handler of an opcode of family Int/Uint/Float32/Float64/Bool/String/Bytes/Number/MarshalJSON/MarshalText calls exactly that family's append primitive and ptrTo loader, and the plain packages' appendX variables alias encoder.AppendX", Covers: "every value is printed by the primitive of its own type (same number values, same string contents)", Min: 900, Run: c01r5},
 			{ID: "C08.R10", Title: "marshaler head handlers take the null exit for a nil struct address (shared with C08)", Covers: "Marshal succeeds whenever encoding/json does (nil *struct{M T} is null, not a panic)", Min: 16, Run: c08r10},
 			{ID: "C08.R11", Title: "marshaler pointer heads honour the pointer depth (shared with C08)", Covers: "values reached through pointers up to depth 3 encode like encoding/json", Min: 16, Run: c08r11},
+			{ID: "C19.R6", Title: "first-field and other-field opcode merging agree (bit size, pointer depth, context flag, sub-query) (shared with C19)", Covers: "a field encodes the same whether it is the first of its struct or not", Min: 2, Run: c19r6},
 			{ID: "C01.R4", Title: "copyOpcode and every Filter method that rebuilds its receiver carry over each field that is assigned anywhere else in the package, field-for-field", Covers: "cached/filtered programs behave like the freshly compiled one", Min: 20, Run: c01r4},
 		},
 	})
@@ -74,7 +75,8 @@ func init() {
 			{ID: "C05.R6", Title: "the encoder's number scanner (compactNumber: Compact, Indent, Valid, marshaler output) and AppendNumber (json.Number) call validNumber before writing, and decoder.validNumber and encoder.validNumber are statement-for-statement the same function", Covers: "Valid/Compact/Indent accept exactly the RFC 8259 numbers; Unmarshal and Valid agree", Min: 3, Run: c05r6},
 			{ID: "C05.R3", Title: "every success return of unmarshal/unmarshalContext/unmarshalNoEscape/extractFromPath after the decode call is the result of validateEndBuf, and validateEndBuf's NUL clause checks the cursor against len(src)", Covers: "anything following the value, including bytes after an embedded NUL, causes an error", Min: 6, Run: c05r3},
 			{ID: "C05.R5", Title: "in every container separator dispatch (a byte switch with clauses for ',' and a closing bracket) each path from the ',' clause to a successful return passes a call that scans another element", Covers: "trailing commas cause an error", Min: 8, Run: c05r5},
-			{ID: "C05.R4", Title: "floatTable (both copies), numTable, isWhiteSpace (both copies), validEndNumberChar, hexToInt hold exactly the RFC 8259 character sets", Covers: "no scanner consults a widened class", Min: 1700, Run: c05r4},
+			{ID: "C05.R7", Title: "every function named skipWhiteSpace (decoder buffer mode, decoder stream mode, encoder compact/indent) advances the cursor for exactly space, tab, line feed and carriage return, computed for all 256 byte values from the table test or case labels that guard the advance", Covers: "whitespace between tokens is accepted exactly as RFC 8259 allows", Min: 3, Run: c05r7},
+			{ID: "C05.R4", Title: "floatTable (both copies), numTable, isWhiteSpace (both copies), validEndNumberChar, hexToInt hold exactly the RFC 8259 character sets", Covers: "no scanner consults a widened class", Min: 1250, Run: c05r4},
 		},
 	})
 	core.Register(&core.Property{
@@ -179,6 +181,7 @@ func init() {
 			{ID: "C13.R2", Title: "marshaler helper twins take the same decisions, including SetFieldQueryToContext (shared with C13)", Covers: "context-aware marshalers see the query of their own field in every variant", Min: 2, Run: c13r2},
 			{ID: "C19.R4", Title: "every SetFieldQueryToContext in the encoder and the interpreters hands on the current opcode's FieldQuery, and each interpreter compiles the dynamic value of an interface under that sub-query (installed under the FieldQueryOption flag only, context restored right after)", Covers: "recursively through sub-queries ... interfaces and context-aware marshalers", Min: 10, Run: c19r4},
 			{ID: "C19.R5", Title: "for each Code type whose Filter rebuilds part of the receiver (fields, value), every return of its ToOpcode/ToAnonymousOpcode is reached only after reading that part, so a filtered Code cannot compile to the unfiltered program", Covers: "recursively through sub-queries, pointers, slices, maps", Min: 8, Run: c19r5},
+			{ID: "C19.R6", Title: "StructFieldCode.headerOpcodes and fieldOpcodes are the same up to the Head/Field naming, and both carry the value opcode's FieldQuery to the field opcode", Covers: "the sub-query reaches a context-aware marshaler whichever position its field has", Min: 2, Run: c19r6},
 			{ID: "C19.R3", Title: "getFilteredCodeSetIfNeeded looks up and stores the filtered program under the same key expression, stores the program compiled from codeSet.Code.Filter(query), and returns early without ContextOption", Covers: "a query never affects encodings made with another query or with none", Min: 4, Run: c19r3},
 			{ID: "C14.R2", Title: "the type cache slot only receives the program compiled for the type (shared with C14)", Covers: "a filtered program never replaces the unfiltered one", Configs: []string{"default", "race"}, Min: 8, Run: c14r2},
 			{ID: "C11.R4", Title: "Filter/ToOpcode do not modify the cached Code tree (shared with C11)", Covers: "filtering for one query does not change the next", Min: 20, Run: c11r4},
@@ -194,6 +197,7 @@ func init() {
 			{ID: "C10.R3", Title: "fields of decoder.Path are assigned only in the builder (shared with C10)", Covers: "one Path may be used from several goroutines", Min: 3, Run: c10r3},
 			{ID: "C11.R2", Title: "what evaluation overwrites in the Path is restored on every exit (shared with C11)", Covers: "a Path behaves like a fresh one after an error", Min: 2, Run: c11r2},
 			{ID: "C11.R5", Title: "extracted values never alias package-level slices (shared with C11)", Covers: "the result depends only on path text and document", Min: 10, Run: c11r5},
+			{ID: "C20.R2", Title: "in every DecodePath method the name passed to Path.Field is the result of a stringDecoder method (the unescaped key), not a slice of the input", Covers: "child and quoted-name selectors select the members whose name equals the selector, however the key is spelled", Min: 1, Run: c20r2},
 			{ID: "C20.R1", Title: "every read at <index>+k in path.go is protected by a length test on the same index (no terminator idiom applies to the []rune path text)", Covers: "malformed path text is rejected with an error, never an index panic", Min: 12, Run: c20r1},
 			{ID: "C06.R2", Title: "recursion rule (shared with C06; includes the path builder)", Covers: "a long path text cannot exhaust the stack", Min: 4, Run: c06r2},
 			{ID: "C06.R3", Title: "reflect kind preconditions in Path.Get (shared with C06)", Covers: "Path.Get never panics on a supported kind", Min: 10, Run: c06r3},
@@ -235,6 +239,7 @@ func init() {
 		Rules: []*core.Rule{
 			{ID: "C14.R1", Title: "every index into cachedOpcodeSets/cachedDecoder is dominated by returning tests `addr > typeAddr.MaxTypeAddr` and `addr < typeAddr.BaseTypeAddr` on the address the index is computed from", Covers: "types outside the analysed address range (run-time created, PIE) never index the cache", Configs: []string{"default", "race"}, Min: 4, Run: c14r1},
 			{ID: "C14.R2", Title: "lookup and store use one index variable assigned once; the stored value is the result of a compile call on the function's own type argument; the slow-path map is keyed by the full address", Covers: "the program applied to a value is the one compiled for its type", Configs: []string{"default", "race"}, Min: 8, Run: c14r2},
+			{ID: "C14.R5", Title: "in linkRecursiveCode every program stored into a back-reference's Jmp (fresh copy or reused one) is looked up under a key derived from that back-reference's own Type", Covers: "a value is only ever handed to the program built for its own type (recursive references inside one program)", Min: 2, Run: c14r5},
 			{ID: "C14.R3", Title: "CompileToGetCodeSet / CompileToGetDecoder: race and norace variants perform the same sequence of module calls, cache slot reads/writes and address-bound comparisons; encoder and decoder guards compare the same bounds", Covers: "both build configurations implement the same cache", Min: 3, Run: c14r3},
 			{ID: "C14.R4", Title: "caches are allocated with AddrRange>>AddrShift+1 entries and indexed with >>AddrShift", Covers: "every in-range address maps to an allocated slot", Min: 4, Run: c14r4},
 		},
@@ -262,6 +267,7 @@ func init() {
 			{ID: "C16.R1", Title: "if len(pow10 table) digits can exceed the accumulator type, parseInt/parseUint contain an erroring comparison that mentions the type's bound (or delegate to strconv)", Covers: "a literal that does not fit 64 bits is an error, never a wrapped number", Min: 2, Run: c16r1},
 			{ID: "C16.R2", Title: "the switch over the destination kind in intDecoder/uintDecoder Decode and DecodeStream has, for every kind narrower than 64 bits in this configuration, a range test that is true exactly outside the kind's range and exits with an error", Covers: "a literal that does not fit the destination is an error, never truncated", Configs: []string{"default"}, Deep: []string{"386"}, Min: 20, Run: c16r2},
 			{ID: "C16.R3", Title: "in intDecoder.decodeByte and decodeStreamByte the clause accepting '-' tests the token length with an error exit, and rejects a leading 0 followed by more digits", Covers: "a bare minus sign is an error", Min: 2, Run: c16r3},
+			{ID: "C01.R5", Title: "each integer opcode's handler formats its value with its own family's primitive (appendInt for signed, appendUint for unsigned) and loader, in every interpreter (shared with C01)", Covers: "encoding prints exactly the decimal value, signed as its type says, also under omitempty/string tags and in fused end opcodes", Min: 900, Run: c01r5},
 			{ID: "C16.R4", Title: "decoder: each numeric kind's constructor stores through a pointer of exactly that Go type; encoder: every bitSize the compiler emits has a case in AppendInt/AppendUint/ptrToUint64 and equals the width of the kind it is chosen for", Covers: "every integer width is read and written at its own width", Configs: []string{"default"}, Deep: []string{"386"}, Min: 60, Run: c16r4},
 			{ID: "C04.R2", Title: "digit-pair, power-of-ten and hex tables (shared with C04)", Covers: "exact decimal printing and parsing", Min: 250, Run: c04r2},
 		},
@@ -277,6 +283,7 @@ func init() {
 			{ID: "C06.R5", Title: "every read at <cursor>+k (index, slice bound, char(p, cursor+k)), k >= 1, in the decoders and in compact.go/indent.go is protected by a dominating `cursor+j >= len` exit or an enclosing/short-circuit `cursor+j < len` test with j >= k, by readAtLeast, or by the NUL-sentinel idiom (the preceding byte was matched against a non-NUL constant)", Covers: "truncated literals and escapes give an error instead of an out-of-range panic or a stray read", Min: 25, Run: c06r5},
 			{ID: "C18.R5", Title: "compactValue/indentValue, compactObject/indentObject, compactArray/indentArray send each of the 256 byte values to an error, to the same delegate, or to inline handling alike", Covers: "Compact and Indent accept the same texts and share string/number/literal handling", Min: 3, Run: c18r5},
 			{ID: "C05.R1", Title: "byte classes of every scanner state (shared with C05; includes compactString)", Covers: "raw control characters and invalid escapes are rejected by Compact/Indent/Valid", Min: 100, Run: c05r1},
+			{ID: "C05.R7", Title: "every function named skipWhiteSpace (decoder buffer mode, decoder stream mode, encoder compact/indent) advances the cursor for exactly space, tab, line feed and carriage return, computed for all 256 byte values from the table test or case labels that guard the advance", Covers: "Compact/Indent/Valid accept the texts encoding/json accepts (CRLF documents)", Min: 3, Run: c05r7},
 			{ID: "C05.R3", Title: "trailing-input check (shared with C05; includes encoder.validateEndBuf)", Covers: "anything after the value makes Compact/Indent fail", Min: 6, Run: c05r3},
 			{ID: "C05.R6", Title: "the number scanner of Compact/Indent/Valid checks each token against the JSON number grammar (shared with C05)", Covers: "Compact/Indent/Valid fail exactly when encoding/json's do (01, 1., -.5)", Min: 3, Run: c05r6},
 		},
@@ -287,6 +294,7 @@ func init() {
 		NotCovered: "position-dependent behaviour of the 8-byte scan, surrogate-pair arithmetic, equality with encoding/json's decoded string.",
 		Rules: []*core.Rule{
 			{ID: "C17.R1", Title: "per appender: needEscape* table marks exactly the bytes its variant must escape, the SWAR mask has one term per marked ASCII class plus the high-bit term, every marked ASCII byte has an escaping case", Covers: "no raw control/quote/backslash (and <,>,& under HTML escaping) in output", Min: 1100, Run: c17r1},
+			{ID: "C09.R1", Title: "stream-mode scanners (the \\u escape decoder among them) never use a window pointer, slice or loaded byte after a call that may refill the window without re-taking it (shared with C09)", Covers: "escapes decode to the same string in stream mode as in buffer mode, wherever the read boundary falls", Min: 12, Run: c09r1},
 			{ID: "C17.R4", Title: "decodeRuneInString returns lineSepState/paragraphSepState only under s[0]==0xE2, s[1]==0x80 and s[2]==0xA8/0xA9", Covers: "only U+2028/U+2029 are rewritten as \\u2028/\\u2029; every other character keeps its bytes", Min: 2, Run: c17r4},
 			{ID: "C17.R3", Title: "decode_rune.go `first` equals the UTF-8 lead-byte classification", Covers: "invalid UTF-8 is recognised (replaced by U+FFFD)", Min: 256, Run: c17r3},
 		},
